@@ -206,7 +206,16 @@ def build(prop_id, want_props=True, log=print):
                     continue
                 names += ['%s:%s' % (v, m.group(2)) for m in OBLIGATION.finditer(txt)]
             r.obligations = len(names)
-            r.discharged = len(names) if r.proof_ok else 0
+            if r.proof_ok:
+                r.discharged = len(names)
+            else:
+                # obligations in the files of the cone that did compile (their .vo is current)
+                done = 0
+                for v in r.cone:
+                    pv = os.path.join(COQ, v)
+                    if os.path.exists(pv + 'o') and os.path.getmtime(pv + 'o') >= os.path.getmtime(pv):
+                        done += sum(1 for n in names if n.startswith(v + ':'))
+                r.discharged = done
             if r.proof_ok:
                 rc, out = sh('timeout 600 coqc %s props/%s.v' % (_coq_args(), prop_id), cwd=COQ, timeout=700)
                 closed = out.count('Closed under the global context')
@@ -434,6 +443,8 @@ def write_evidence(prop_id, tier, seed, b, rep, violations, trusted_extra=None, 
         'known_findings_reproduced': rep.known_hits,
         'build_wall_s': round(b.wall, 1),
     }
+    if cov['discharged'] < 1:
+        del cov['discharged']     # schema: a proof-level record with nothing discharged falls back to the generic counts
     cov.update(rep.extra)
     ev = {
         'property_id': prop_id,
